@@ -153,6 +153,7 @@ def c13(ctx):
     long_run_battery(ctx, ["poll"])
     far_time_battery(ctx)
     real_clock_run(ctx)
+    measured_clock_run(ctx)
     canary(ctx, trace, corrupt_out("poll", op=("poll",), need_report=ctx.rng.random() < 0.5))
     need = ["poll.early.pending", "poll.late.pending", "poll.late.lsb", "poll.early.flag", "twin.C13", "C13l"]
     vacuity(ctx, need)
